@@ -34,6 +34,13 @@ resize (`w`) the harness really went through, every operation having returned; r
 counter model with per-thread nesting depth (`Model/TxCount.lean`, `nested_depth_tracks_open`,
 `holder_never_waits`): the model must be able to take every step and end with nothing open.
 
+`kv g-new` / `g-put key r<bb>x<len>` / `g-del key` / `g-get who key` / `g-iter`: run `growth` — a
+store growing through many resizes (tens of MiB); the values are runs of one byte and are kept
+by the driver only as their fingerprint (length + FNV-1a-32, computed without materialising the
+value), in a table sorted by key bytes: every sampled read and the final full iteration are
+compared; the map sizes of that run go through `rz-batch` (resize protocol model,
+`unbounded_growth_stays_aligned_and_sufficient`) and `needs-resize`.
+
 `kv space <map> <last_pg> <need> <chunk>`: run `frag` — the batch just executed could allocate at
 most `need` pages; if they fit behind the last page of the map `needs_resize` leaves, the batch
 must have succeeded (`tail_fit_never_fails`), whatever the fragmentation. -/
@@ -50,6 +57,8 @@ structure St where
   objs : List (String × (Bytes × Bytes × Val)) := []
   /-- serialised `Tip` of the genesis header (`ChainStore::pibd_head` falls back to it) -/
   genTip : Bytes := []
+  /-- run `growth`: key bytes ↦ fingerprint of the committed value, sorted by key -/
+  gtab : List (Bytes × String) := []
   /-- resize protocol state of run `selfiter` -/
   rz : Kv.REnv := { mapSize := 0, chunk := 1 }
 
@@ -199,11 +208,46 @@ def handleCs (st : St) (args : List String) (impl : String) : St × Verdict :=
       | some r => (st, cmpSpec r impl)
       | none => (st, .unknown)
 
+/-- FNV-1a-32 of `len` copies of byte `b` without building the list -/
+def fnvRun (b : Nat) : Nat → Nat → Nat
+  | 0, h => h
+  | n+1, h => fnvRun b n (((h ^^^ b) * 16777619) % 4294967296)
+
+/-- fingerprint (what `showVal` prints) of a value token -/
+def fpOfTok (s : String) : Option String :=
+  if s.startsWith "r" then
+    match ((s.drop 1).toString.splitOn "x") with
+    | [b, n] => match parseHex b, nat? n with
+      | some [x], some n =>
+        if n > 48 then some s!"L{n}:{hex8 (fnvRun x n 0x811c9dc5)}" else some (toHex (List.replicate n x))
+      | _, _ => none
+    | _ => none
+  else (parseHex s).map showVal
+
+def gInsert (k : Bytes) (v : String) : List (Bytes × String) → List (Bytes × String)
+  | [] => [(k, v)]
+  | (k', v') :: r =>
+    if bytesLt k k' then (k, v) :: (k', v') :: r
+    else if k = k' then (k, v) :: r
+    else (k', v') :: gInsert k v r
+
 def kvArg (args : List String) (k : String) : Option Nat :=
   ((args.find? (·.startsWith (k ++ "="))).map (fun a => (a.drop (k.length + 1)).toString)).bind String.toNat?
 
 def handle (st : St) (args : List String) (impl : String) : St × Verdict :=
   match args with
+  | ["g-new"] => ({ st with gtab := [] }, .ok)
+  | ["g-put", k, v] => match parseHex k, fpOfTok v with
+    | some kb, some fp => ({ st with gtab := gInsert kb fp st.gtab }, cmpSpec "ok" impl)
+    | _, _ => (st, .unknown)
+  | ["g-del", k] => match parseHex k with
+    | some kb => ({ st with gtab := st.gtab.filter (fun e => e.1 != kb) }, cmpSpec "ok" impl)
+    | none => (st, .unknown)
+  | ["g-get", _who, k] => match parseHex k with
+    | some kb => (st, cmpSpec (match st.gtab.lookup kb with | some fp => "some:" ++ fp | none => "none") impl)
+    | none => (st, .unknown)
+  | ["g-iter"] =>
+    (st, cmpSpec ("[" ++ ",".intercalate (st.gtab.map fun e => toHex e.1 ++ "=" ++ e.2) ++ "]") impl)
   | ["txseq", n, toks] => match nat? n, (toks.splitOn ",").mapM GV.TxCount.parseAct with
     | some n, some acts => (st, cmpModel (GV.TxCount.replay n acts) impl)
     | _, _ => (st, .unknown)
